@@ -502,7 +502,15 @@ class OSFS(FS):
                             }
                         }
                         if requires_stat:
-                            stat_result = dir_entry.stat()
+                            try:
+                                stat_result = dir_entry.stat()
+                            except OSError as error:
+                                if error.errno == errno.ENOENT and not os.path.lexists(
+                                    dir_entry.path
+                                ):
+                                    # removed since it was listed
+                                    continue
+                                raise
                             if "details" in namespaces:
                                 info["details"] = self._make_details_from_stat(
                                     stat_result
@@ -518,7 +526,13 @@ class OSFS(FS):
                                     stat_result
                                 )
                         if "lstat" in namespaces:
-                            lstat_result = dir_entry.stat(follow_symlinks=False)
+                            try:
+                                lstat_result = dir_entry.stat(follow_symlinks=False)
+                            except OSError as error:
+                                if error.errno == errno.ENOENT:
+                                    # removed since it was listed
+                                    continue
+                                raise
                             info["lstat"] = {
                                 k: getattr(lstat_result, k)
                                 for k in dir(lstat_result)
@@ -546,7 +560,15 @@ class OSFS(FS):
                 for entry_name in os.listdir(sys_path):
                     _entry_name = fsdecode(entry_name)
                     entry_path = os.path.join(sys_path, _entry_name)
-                    stat_result = os.stat(fsencode(entry_path))
+                    try:
+                        stat_result = os.stat(fsencode(entry_path))
+                    except OSError as error:
+                        if error.errno == errno.ENOENT and not os.path.lexists(
+                            entry_path
+                        ):
+                            # removed since it was listed
+                            continue
+                        raise
                     info = {
                         "basic": {
                             "name": _entry_name,
@@ -562,7 +584,13 @@ class OSFS(FS):
                             if k.startswith("st_")
                         }
                     if "lstat" in namespaces:
-                        lstat_result = os.lstat(entry_path)
+                        try:
+                            lstat_result = os.lstat(entry_path)
+                        except OSError as error:
+                            if error.errno == errno.ENOENT:
+                                # removed since it was listed
+                                continue
+                            raise
                         info["lstat"] = {
                             k: getattr(lstat_result, k)
                             for k in dir(lstat_result)
